@@ -20,7 +20,13 @@
 #include "lifetrack.hpp"
 
 #include "values.h"
-#include "notify.h"           // mptio: mpt_input_reference_traits()
+#define protected public
+#include "notify.h"           // mptio: mpt_input_reference_traits(), struct notify (C view of its members)
+#undef protected
+#include <sys/mman.h>
+#include <sys/socket.h>
+#include <fcntl.h>
+#include <unistd.h>
 #include "refcount_wrap.cpp"  // $VERIF_REPO/mpt++/refcount_wrap.cpp
 // the C++ array templates (item_array<T>::append) need a few members that live in libmpt++; the library itself is not
 // linked (it would replace mpt_meta_new / mpt_meta_buffer), so the repository's sources of exactly these members are compiled in
@@ -98,12 +104,21 @@ struct BufObj {
   CBuf *b;
   std::vector<uint64_t> toks;
   long extra = 0;  // references the harness took through vptr->addref
+  bool mapped = false;     // _mpt_buffer_map: memory the heap checker does not see
+  bool gone_seen = false;  // the unmapping was observed (later the address may belong to somebody else)
 };
+// is the page that starts a memory mapped buffer still mapped?  (mincore reports ENOMEM for unmapped addresses)
+static bool page_mapped(const void *p) {
+  static long psz = sysconf(_SC_PAGESIZE);
+  unsigned char vec = 0;
+  void *page = (void *)((uintptr_t)p & ~(uintptr_t)(psz - 1));
+  return mincore(page, 1, &vec) == 0;
+}
 
 // a slice is an array handle (base class in the C++ view, first member in C) plus offset and visible length
 static array *arr_of(slice *s) { return s; }
 static array *arr_of(CObj<slice> &s) { return s.get(); }
-static void run_buffer(Ctx &c, bool outer = false) {
+static void run_buffer(Ctx &c, bool outer = false, bool mapped = false) {
   Obs obs;
   W = &obs;
   struct Guard { ~Guard() { W = 0; } } guard;
@@ -125,11 +140,12 @@ static void run_buffer(Ctx &c, bool outer = false) {
     }
   };
   bool nontrivial = false;
-  c.label(outer ? "buffer:outer-variant" : "buffer");
+  c.label(outer ? "buffer:outer-variant" : mapped ? "buffer:mapped-variant" : "buffer");
   auto adopt = [&](CBuf *b) {  // register a buffer object the library created (detach copy) or the harness made
     for (auto &o : objs) if (o.b == b && !o.toks.empty() && obs.trk.live.count(o.toks[0])) return;
     BufObj o;
     o.b = b;
+    o.mapped = (flags_of(b) & BufferMapped) != 0;
     if (b->traits) for (size_t i = 0; i < b->used / 16; i++) { uint64_t t; memcpy(&t, b->data() + 16 * i, 8); o.toks.push_back(t); }  // raw buffers (slice scenario) hold no elements
     objs.push_back(o);
   };
@@ -156,7 +172,8 @@ static void run_buffer(Ctx &c, bool outer = false) {
       c.logf("    buffer #%zu: %ld handle(s)/slot(s) + %ld harness reference(s); elements %s", i, cnt[i], o.extra, live ? "alive" : "finalised");
       if (expect > 0) {
         VP_CHECK(c, live, "released-early", "after %s: buffer #%zu is still referenced %ld time(s) but its elements were finalised", op, i, expect);
-        VP_CHECK(c, !poisoned(o.b), "released-early", "after %s: buffer #%zu is still referenced %ld time(s) but its memory was freed", op, i, expect);
+        if (o.mapped) VP_CHECK(c, page_mapped(o.b), "released-early", "after %s: memory mapped buffer #%zu is still referenced %ld time(s) but was unmapped", op, i, expect);
+        else VP_CHECK(c, !poisoned(o.b), "released-early", "after %s: buffer #%zu is still referenced %ld time(s) but its memory was freed", op, i, expect);
         bool shared = flags_of(o.b) & BufferShared;
         VP_CHECK(c, shared == (expect > 1), "count-mismatch", "after %s: buffer #%zu has %ld reference(s) but reports %s", op, i, expect, shared ? "shared" : "not shared");
         // exact count: addref returns the raised counter (mpt_refcount_raise), unref takes the probe back
@@ -166,7 +183,11 @@ static void run_buffer(Ctx &c, bool outer = false) {
         for (uint64_t t : o.toks) obs.trk.tally_token(t);
       } else {
         VP_CHECK(c, !live || o.toks.empty(), "not-released", "after %s: the last reference to buffer #%zu was dropped but its elements are still alive", op, i);
-        if (newest[i]) VP_CHECK(c, poisoned(o.b), "not-released", "after %s: the last reference to buffer #%zu was dropped but its memory is still allocated", op, i);
+        if (o.mapped) {  // checked when the count reaches 0: afterwards the address range may be mapped again for somebody else
+          if (newest[i] && !o.gone_seen) VP_CHECK(c, !page_mapped(o.b), "not-released", "after %s: the last reference to memory mapped buffer #%zu was dropped but the mapping still exists", op, i);
+          o.gone_seen = true;
+        }
+        else if (newest[i]) VP_CHECK(c, poisoned(o.b), "not-released", "after %s: the last reference to buffer #%zu was dropped but its memory is still allocated", op, i);
       }
     }
     std::string first;
@@ -175,7 +196,24 @@ static void run_buffer(Ctx &c, bool outer = false) {
   };
   auto alive_objs = [&]() { std::vector<int> v; for (size_t i = 0; i < objs.size(); i++) { long n = objs[i].extra; for (auto &x : h) if (cbuf(x) == objs[i].b) n++; for (auto &x : slot) if (cbuf(x) == objs[i].b) n++; for (auto &x : sl) if (cbuf(arr_of(x)) == objs[i].b) n++; out_elements([&](CBuf *b) { if (b == objs[i].b) n++; }); bool newest = true; for (size_t j = i + 1; j < objs.size(); j++) if (objs[j].b == objs[i].b) newest = false; if (n > 0 && newest) v.push_back((int)i); } return v; };
   while (c.more()) {
-    switch (outer ? c.weighted({6, 12, 6, 8, 8, 6, 6, 6, 6, 9, 3, 12, 12, 3, 3}) : c.weighted({6, 12, 6, 8, 8, 6, 6, 6, 6, 9, 3})) {
+    switch (outer ? c.weighted({6, 12, 6, 8, 8, 6, 6, 6, 6, 9, 3, 12, 12, 3, 3}) : mapped ? c.weighted({3, 12, 6, 8, 8, 4, 4, 12, 5, 7, 3, 0, 0, 0, 0, 12}) : c.weighted({6, 12, 6, 8, 8, 6, 6, 6, 6, 9, 3})) {
+      case 15: {  // mapped variant: a handle gets a raw memory mapped buffer (flags none / immutable / no-copy)
+        int i = (int)c.pick(3);
+        if (cbuf(h[i]) || objs.size() >= 8) break;
+        int fl = (int)c.weighted({3, 5, 2});
+        fl = fl == 0 ? 0 : fl == 1 ? BufferImmutable : BufferNoCopy;
+        size_t n = c.near({0, 1, 100}, 300);
+        buffer *b = _mpt_buffer_map(n, fl);
+        if (!b) { c.label("buffer:map-refused"); break; }
+        memset(b + 1, 0x6d, n);
+        b->_used = n;
+        cbuf(h[i]) = (CBuf *)b;
+        adopt((CBuf *)b);
+        c.logf("h%d = new memory mapped raw buffer #%zu with %zu bytes, flags %x (size %zu)", i, objs.size() - 1, n, fl, ((CBuf *)b)->size);
+        c.label(fl == BufferImmutable ? "buffer:map-immutable" : fl ? "buffer:map-nocopy" : "buffer:map");
+        check("create mapped");
+        break;
+      }
       case 11: {  // outer variant: copy a handle into an element of an outer array of arrays
         int k = (int)c.pick(2), j = (int)c.pick(3);
         CBuf *ob = cbuf(out[k]);
@@ -392,6 +430,7 @@ static void run_buffer(Ctx &c, bool outer = false) {
         c.logf("  -> %s", !n ? "refused" : n == before ? "same buffer" : "new buffer");
         if (n) {
           cbuf(h[i]) = n;
+          if (n != before && mapped) { nontrivial = true; c.label(shared ? "buffer:map-detach-shared" : "buffer:map-detach-sole-owner"); }
           if (n != before) {
             if (!shared) { int k = index(before); objs[k].toks.clear(); }  // moved: the old object is gone, its elements live on in the new one
             adopt(n);
@@ -1374,10 +1413,158 @@ static void run_itemappend(Ctx &c) {
   if (nontrivial) c.nontrivial();
 }
 
+// ------------------------------------------------------------------ notifier: ownership of inputs handed to mpt_notify_add
+struct HInput;
+struct HInputVptr {
+  int (*convert)(HInput *, type_t, void *);
+  void (*unref)(HInput *);
+  uintptr_t (*addref)(HInput *);
+  HInput *(*clone)(const HInput *);
+  int (*next)(HInput *, int);
+  int (*dispatch)(HInput *, int (*)(void *, event *), void *);
+};
+struct HInput {
+  const HInputVptr *vptr;
+  long refs;
+  int destroyed, id, fd;
+  Viol *viol;
+  static int s_convert(HInput *in, type_t type, void *dest) {
+    if (in->destroyed) in->viol->rec("use-after-destroy", "convert() on input #%d after its last reference was dropped", in->id);
+    if (!type) { static const uint8_t fmt[] = {TypeUnixSocket, 0}; if (dest) *(const uint8_t **)dest = fmt; return TypeMetaPtr; }
+    if (type == TypeUnixSocket) { if (dest) *(int32_t *)dest = in->fd; return TypeUnixSocket; }
+    if (type == TypeMetaPtr) { if (dest) *(void **)dest = in; return TypeMetaPtr; }
+    return BadType;
+  }
+  static void s_unref(HInput *in) {
+    if (in->destroyed || !in->refs) { in->viol->rec("unref-after-destroy", "unref() on input #%d after its last reference was dropped", in->id); return; }
+    if (!--in->refs) in->destroyed++;
+  }
+  static uintptr_t s_addref(HInput *in) {
+    if (in->destroyed) { in->viol->rec("addref-after-destroy", "addref() on input #%d after it was destroyed", in->id); return 0; }
+    return ++in->refs;
+  }
+  static HInput *s_clone(const HInput *) { return 0; }
+  static int s_next(HInput *, int) { return 0; }
+  static int s_dispatch(HInput *, int (*)(void *, event *), void *) { return 0; }
+};
+
+static void run_notify(Ctx &c) {
+  static const HInputVptr vp = {HInput::s_convert, HInput::s_unref, HInput::s_addref, HInput::s_clone, HInput::s_next, HInput::s_dispatch};
+  Viol viol;
+  c.label("notify");
+  enum { N = 4 };
+  // descriptors: 0 pipe (read end), 1 socketpair end, 2 regular file (epoll refuses it: EPERM), 3 a descriptor that is closed again
+  struct Fds {
+    int pfd[2] = {-1, -1}, sp[2] = {-1, -1}, reg = -1, closed = -1;
+    Fds() {
+      if (pipe(pfd)) pfd[0] = pfd[1] = -1;
+      if (socketpair(AF_UNIX, SOCK_STREAM, 0, sp)) sp[0] = sp[1] = -1;
+      reg = memfd_create("vp-c15-notify", 0);  // a regular (shmem) file without poll support, nothing touches the file system
+      closed = dup(pfd[1]);
+      if (closed >= 0) close(closed);
+    }
+    ~Fds() { for (int fd : {pfd[0], pfd[1], sp[0], sp[1], reg}) if (fd >= 0) close(fd); }
+  } fds;
+  VP_CHECK(c, fds.pfd[0] >= 0 && fds.sp[0] >= 0 && fds.reg >= 0 && fds.closed >= 0, "harness", "could not create descriptors");
+  const int fdof[N] = {fds.pfd[0], fds.sp[0], fds.reg, fds.closed};
+  static const char *fdname[N] = {"pipe", "socket", "regular file", "closed descriptor"};
+  HInput in[N];
+  long held[N];
+  for (int k = 0; k < N; k++) { in[k] = HInput{&vp, 1, 0, k, fdof[k], &viol}; held[k] = 1; }
+  CObj<notify> no;
+  no->_sysfd = -1;  // MPT_NOTIFY_INIT
+  bool nontrivial = false;
+  auto slot_of = [&](int k) -> HInput * {
+    CBuf *b = *(CBuf **)&no->_slot;
+    if (!b || (size_t)fdof[k] >= b->used / sizeof(void *)) return 0;
+    return ((HInput **)b->data())[fdof[k]];
+  };
+  auto check = [&](const char *op) {
+    viol.raise(c, op);
+    long cnt[N] = {0};
+    CBuf *b = *(CBuf **)&no->_slot;
+    size_t used_slots = 0;
+    if (b) {
+      VP_CHECK(c, b->traits == mpt_input_reference_traits(), "harness", "slot buffer has unexpected content traits");
+      for (size_t i = 0; i < b->used / sizeof(void *); i++) {
+        HInput *p = ((HInput **)b->data())[i];
+        if (!p) continue;
+        VP_CHECK(c, p >= in && p < in + N, "unknown-reference", "after %s: notifier slot %zu holds an unknown pointer", op, i);
+        VP_CHECK(c, (int)i == p->fd, "slot-position", "after %s: input #%d (descriptor %d) sits in slot %zu", op, p->id, p->fd, i);
+        cnt[p - in]++;
+        used_slots++;
+      }
+    }
+    for (int k = 0; k < N; k++) {
+      long expect = cnt[k] + held[k];
+      c.logf("    input #%d (%s): %ld notifier slot(s) + %ld harness reference(s), counter %ld, destroyed %d", k, fdname[k], cnt[k], held[k], in[k].refs, in[k].destroyed);
+      VP_CHECK(c, in[k].destroyed <= 1, "destroyed-twice", "after %s: input #%d destroyed %d times", op, k, in[k].destroyed);
+      VP_CHECK(c, in[k].refs == expect, in[k].refs > expect ? "not-released" : "released-early", "after %s: input #%d has reference count %ld but the notifier holds it %ld time(s) and the harness %ld time(s)", op, k, in[k].refs, cnt[k], held[k]);
+      VP_CHECK(c, (in[k].destroyed == 1) == (expect == 0), expect ? "released-early" : "not-released", "after %s: input #%d: %ld reference(s) held, destroyed %d time(s)", op, k, expect, in[k].destroyed);
+    }
+    VP_CHECK(c, no->_fdused == used_slots, "notifier-count", "after %s: notifier reports %u inputs, %zu slots are occupied", op, no->_fdused, used_slots);
+  };
+  check("start");
+  while (c.more()) {
+    int k = (int)c.pick(N);
+    switch (c.weighted({12, 6, 2, 3})) {
+      case 0: {  // hand an input over to the notifier
+        if (!held[k]) break;
+        bool occupied = slot_of(k) != 0;
+        HInput::s_addref(&in[k]);  // the reference that is handed over
+        int r = mpt_notify_add(no, 0x1 /* EPOLLIN / POLLIN */, (input *)&in[k]);
+        c.logf("mpt_notify_add(input #%d on a %s%s) returns %d", k, fdname[k], occupied ? ", slot occupied" : "", r);
+        if (r < 0) {
+          HInput::s_unref(&in[k]);  // refused: the caller keeps the reference it offered and drops it
+          nontrivial = true;
+          c.label(occupied ? "notify:add-refused-occupied" : k >= 2 ? "notify:add-refused-by-epoll" : "notify:add-refused");
+        } else {
+          VP_CHECK(c, slot_of(k) == &in[k], "add-result", "mpt_notify_add returned %d but the slot of descriptor %d holds %p", r, fdof[k], (void *)slot_of(k));
+          c.label("notify:add");
+        }
+        check("add");
+        break;
+      }
+      case 1: {  // remove the input of a descriptor
+        bool occupied = slot_of(k) != 0;
+        int r = mpt_notify_clear(no, fdof[k]);
+        c.logf("mpt_notify_clear(descriptor of input #%d: %s, slot %s) returns %d", k, fdname[k], occupied ? "occupied" : "empty", r);
+        VP_CHECK(c, !slot_of(k), "clear-result", "slot still occupied after mpt_notify_clear");
+        if (occupied) { nontrivial = true; c.label("notify:clear"); }
+        check("clear");
+        break;
+      }
+      case 2: {  // drop everything
+        c.logf("mpt_notify_fini");
+        mpt_notify_fini(no);
+        nontrivial = true;
+        c.label("notify:fini");
+        check("fini");
+        break;
+      }
+      default: {  // the harness lets go of its own reference
+        if (!held[k]) break;
+        c.logf("harness drops its reference on input #%d", k);
+        HInput::s_unref(&in[k]);
+        held[k] = 0;
+        if (slot_of(k)) { nontrivial = true; c.label("notify:input-owned-by-notifier-only"); }
+        check("harness reference dropped");
+        break;
+      }
+    }
+  }
+  mpt_notify_fini(no);
+  check("final fini");
+  for (int k = 0; k < N; k++) if (held[k]) { HInput::s_unref(&in[k]); held[k] = 0; }
+  check("final release");
+  if (nontrivial) c.nontrivial();
+}
+
 static void run(Ctx &c) {
   // slots 8 and 10 (second slots of the two cxxref kinds, used by no corpus file) now select the item_array and input reference kinds
   // slots 2 and 4 (second slots of buffer / metaref, used by no corpus file): variants with mpt_array_reserve re-typing
-  static const uint8_t map[16] = {0, 1, 12, 2, 11, 3, 3, 4, 9, 5, 10, 6, 6, 7, 7, 8};
+  // slots 6 and 12 (second slots of convert / meta, used by no corpus file): notifier kind, buffer variant with memory mapped buffers
+  static const uint8_t map[16] = {0, 1, 12, 2, 11, 3, 13, 4, 9, 5, 10, 6, 14, 7, 7, 8};
   switch (map[c.u8() % 16]) {
     case 0: run_counter(c); break;
     case 1: run_buffer(c); break;
@@ -1391,6 +1578,8 @@ static void run(Ctx &c) {
     case 10: run_metaref(c, mpt_input_reference_traits(), "inputref"); break;
     case 11: c.flip() ? run_metaref(c, mpt_meta_reference_traits(), "metaref:retype", true) : run_metaref(c, mpt_input_reference_traits(), "inputref:retype", true); break;
     case 12: run_buffer(c, true); break;
+    case 13: run_notify(c); break;
+    case 14: run_buffer(c, false, true); break;
     default: run_rawdata(c); break;
   }
 }
